@@ -56,6 +56,10 @@ static int snoopy_cli_action_conf_valueNeedsQuoting (const char * const value)
     if (((value[0] == '"') && (value[len-1] == '"')) || ((value[0] == '\'') && (value[len-1] == '\''))) {
         return 1;
     }
+    // Printed bare, a leading ';' follows the blank after the '=' sign: that starts an inline comment
+    if (value[0] == ';') {
+        return 1;
+    }
     return 0;
 }
 
